@@ -11,7 +11,7 @@ import z3
 
 from pyvc.verify import Unit, Outcome
 from pyvc.interp import Loop, PyRaise
-from pyvc.values import SInt, SStr, SElem, SBool, SFloat, Obj, PList, PDict, PSet, PyClass, zi, zr, zs, zb, mk_bool, mk_int, is_numlike
+from pyvc.values import SInt, SStr, SElem, SBool, SFloat, Obj, PList, PDict, PSet, PyClass, zi, zr, zs, zb, mk_bool, mk_int, is_numlike, is_intlike, is_floatlike
 from pyvc.runner import BoundedResult
 from .common import Vals, Stubs, StubFuncs, real_env, runtime_error, I, cls_name, date_abstractions
 
@@ -143,6 +143,15 @@ def units(w):
             v = o.value
             it.check("post:the-result-is-a-language-value", (isinstance(v, Obj) and v.cls.issubclass(VALUE)) or (isinstance(v, SElem) and v.sort == "value"),
                      detail=f"returned {type(v).__name__}: {v!r}"[:120])
+            # representation invariant of the number classes: a decimal holds a float, an int holds an int (every operation on
+            # them relies on it: rendering, hashing, float-only host functions)
+            # (ValueInt.asDecimal is the one internal helper that keeps the int: comparisons of ints with decimals are exact through
+            #  it; what functions and operators return to the program goes through this check)
+            if isinstance(v, Obj) and v.cls.name in ("ValueDecimal", "ValueInt") and "value" in v.fields and "ValueInt.asDecimal" not in it.target:
+                pv = v.fields["value"]
+                it.check("post:number-payload-has-the-class's-host-type(decimal: float, int: int)",
+                         (is_floatlike(pv) if v.cls.name == "ValueDecimal" else (is_intlike(pv) and not isinstance(pv, (bool, SBool)))),
+                         detail=f"{v.cls.name} holding {type(pv).__name__}")
 
     # ------------------------------------------------------------------ (A1) natives
     for cname in sorted(funcs):
